@@ -239,6 +239,39 @@ def skewed_clocks(ctx):
         c.time = old
 
 
+
+def moving_clock_history(ctx):
+    """one cache without a root key, a domain controller, and a clock that moves between calls: protect at (L1, L2), protect again after the
+    clock entered a later interval (the DC's newer seed key replaces the older one in the cache), then unprotect BOTH blobs on that cache —
+    the older blob's key must derive from the newer seed (same L1, the next L1 with L2 ≠ 31 / = 31, two L1 on, across the L1 30→31 edge)"""
+    recs = [r for r in clientsim.standard_roots(real=True) if r.secret_algorithm == "ECDH_P256"][:2]
+    sid = "S-1-5-21-1-2-3-1103"
+    for rec in recs:
+        for (p1, p2) in (((5, 3), (6, 7)), ((30, 9), (31, 4)), ((5, 31), (6, 0)), ((5, 3), (5, 9)), ((5, 3), (7, 7)), ((5, 3), (6, 31)), ((0, 0), (1, 1))):
+            for use_async in (False, True):
+                dc = refdc.KeyServer(now=(361,) + p1)
+                dc.add_root(rec)
+                s = clientsim.Sim(dc, real_crypto=True)
+                s.now_ns = clientsim.time_ns_for(361, *p1)
+                inp = {"scenario": "moving_clock_history", "hash": rec.hash_name, "first_protect_at": [361, *p1], "second_protect_at": [361, *p2], "async": use_async}
+                with s.world():
+                    b1 = s.protect(b"first secret", sid, rk=None, use_async=use_async)
+                    dc.now = (361,) + p2
+                    s.now_ns = clientsim.time_ns_for(361, *p2)
+                    b2 = s.protect(b"second secret", sid, rk=None, use_async=use_async)
+                    if not (b1.startswith("done ") and b2.startswith("done ")):
+                        ctx.violation("protect via the DC fails", inp, (b1[:40], b2[:40]), "blobs")
+                        return
+                    ctx.count("moving_clock_history")
+                    for which, blob, want in (("first", b1, b"first secret"), ("second", b2, b"second secret")):
+                        for wire in (bytes.fromhex(blob[5:]), relayout(bytes.fromhex(blob[5:]))):
+                            back = s.unprotect(wire, use_async=use_async)
+                            if back != "done " + hx(want):
+                                ctx.violation("after the clock moved on and a newer seed key replaced the cached one, an earlier blob no longer decrypts on that cache",
+                                              {**inp, "blob": which}, str(back)[:80], "done " + hx(want))
+                                return
+
+
 def run(ctx):
     prelude.validate(ctx)
     rng = ctx.rng
@@ -283,6 +316,7 @@ def run(ctx):
             roundtrip(ctx, True, rec, bytes(rng.randrange(256) for _ in range(min(n, 5000))) + b"\x00" * max(0, n - 5000), sids(rng, 1)[0], clocks(rng, 1)[0], mode, rng.random() < 0.3, [])
     ticking(ctx)
     skewed_clocks(ctx)
+    moving_clock_history(ctx)
 
 
 def search(ctx, broken, disagreements):
@@ -292,6 +326,12 @@ def search(ctx, broken, disagreements):
 def replay(ctx, payload):
     v = payload["violation"]["input"]
     print("recorded input:", v)
+    if v.get("scenario") == "moving_clock_history":
+        c2 = type(ctx)(ctx.prop, "quick", ctx.seed)
+        moving_clock_history(c2)
+        for x in c2.violations:
+            print(" ", x["what"], x["input"], x["observed"])
+        return not c2.violations
     if v.get("scenario") == "skewed_clocks":
         c2 = type(ctx)(ctx.prop, "quick", ctx.seed)
         skewed_clocks(c2)
